@@ -33,6 +33,7 @@
 #include "src/kernel/activity/ActivityImpl.hpp"
 #include "src/kernel/actor/ActorImpl.hpp"
 
+#include <algorithm>
 #include <cstdio>
 #include <cstring>
 #include <fcntl.h>
@@ -187,12 +188,20 @@ static void logline(const std::string& s)
   scan();
   emit(s);
 }
-// called by an actor when it resumes: the first actor of the run list opens a new scheduling round ("phase")
+// called by an actor when it resumes.  A new scheduling round ("phase") has started when the kernel's run list is
+// not the one seen at the previous resume, or when this actor does not come after the previous one in that list
+// (the front of the list cannot be used: it may be an actor that terminates silently).
 static void resumed()
 {
-  auto* self      = simgrid::kernel::actor::ActorImpl::self();
-  auto const& run = simgrid::kernel::EngineImpl::get_instance()->get_actors_to_run();
-  if (not run.empty() && run.front() == self)
+  static std::vector<simgrid::kernel::actor::ActorImpl*> last_list;
+  static long last_pos = -1;
+  auto* self           = simgrid::kernel::actor::ActorImpl::self();
+  auto const& run      = simgrid::kernel::EngineImpl::get_instance()->get_actors_to_run();
+  long pos             = std::find(run.begin(), run.end(), self) - run.begin();
+  bool fresh           = run != last_list || pos <= last_pos;
+  last_list            = run;
+  last_pos             = pos;
+  if (fresh)
     logline("phase");
 }
 
